@@ -34,6 +34,9 @@ func runC15(w *World, r *Report) {
 	hrDumpEndpointVerbatim(w, r, "R6")
 	hrWildcardIsAWholePart(w, r, "R3")
 	hrFreshDecodeTarget(w, r, "R6")
+	hrResponseClosedOnlyWhenPresent(w, r, "R6")
+	hrFlushDoesNotRedeliver(w, r, "R6")
+	hrFreshMapPerIteration(w, r, "R6", pkgDisc, "ConvertToPersisted")
 	hrTrimBothEnds(w, r, "R3")
 	hrPersistedKeysAllRead(w, r, "R6")
 	hrEveryRunResultParses(w, r, "R6")
